@@ -933,6 +933,7 @@ class BoundFn:
         self.ops = []       # (op, param, stmt, target-mask or None)
         self.bad, self.unsure = [], []
         self.W = None
+        self.extra_guards = {}   # id(stmt) -> [(test atom, polarity)] that are not None-tests
         self._scan()
 
     def _scan(self):
@@ -1006,12 +1007,16 @@ class BoundFn:
             gl = guards(st, self.fn.node)
             gset = set()
             und = False
+            extra = []
             for t, pol in atoms(gl or []):
                 nt = none_test(t)
                 if nt is not None and isinstance(nt[0], ast.Name) and nt[0].id in ps:
                     gset.add((nt[0].id, nt[1] == pol))
                 elif nt is not None:
                     und = True
+                else:
+                    extra.append((t, pol))
+            self.extra_guards[id(st)] = extra
             if gl is None or und:
                 self.unsure.append((st, 'unrecognised guard of the bound update'))
                 continue
@@ -1051,7 +1056,7 @@ def _by_flag(e, flag):
     return None
 
 
-@rule('C20.bounds', floor=3)
+@rule('C20.bounds', floor=4)
 def bounds(repo, out):
     """_scale_bound: same [+= adder, *= scaler] list as the values, on every finite entry; infinite entries end on the sentinel of their side."""
     bf = BoundFn(repo)
@@ -1128,6 +1133,67 @@ def bounds(repo, out):
             return
         out.unsure(fn, st, f'mask `{tmask}` is not recognisably the complement of `{infmask}`')
         return
+    # guard clause: the finite entries must be transformed whenever at least one entry is finite
+    def is_complement(name, at):
+        mds_ = ctx.defs(at, name)
+        if len(mds_) != 1 or mds_[0][0] != 'expr':
+            return False
+        e_ = mds_[0][1]
+        return (isinstance(e_, ast.UnaryOp) and isinstance(e_.op, ast.Invert) and astx.path(e_.operand) == infmask) or \
+            (isinstance(e_, ast.Call) and astx.callee_attr(e_) == 'logical_not' and bool(e_.args) and
+             astx.path(e_.args[0]) == infmask)
+
+    # truth of inf_mask.all(), inf_mask.any() per pattern of the bound array
+    PAT = {'all entries finite': (False, False), 'finite and infinite entries mixed': (False, True),
+           'all entries infinite': (True, True)}
+
+    def mask_atom(t, at):
+        """(quantifier 'all'|'any', on_complement) for M.all() / M.any() / np.all(M) / np.any(M)."""
+        if not isinstance(t, ast.Call) or astx.callee_attr(t) not in ('all', 'any'):
+            return None
+        q = astx.callee_attr(t)
+        m_ = t.args[0] if t.args else (t.func.value if isinstance(t.func, ast.Attribute) else None)
+        if isinstance(t.func, ast.Attribute) and astx.path(t.func.value) in ('np', 'numpy') and not t.args:
+            return None
+        if isinstance(m_, ast.UnaryOp) and isinstance(m_.op, ast.Invert) and astx.path(m_.operand) == infmask:
+            return q, True
+        if isinstance(m_, ast.Call) and astx.callee_attr(m_) == 'logical_not' and m_.args and \
+                astx.path(m_.args[0]) == infmask:
+            return q, True
+        if not isinstance(m_, ast.Name):
+            return None
+        if m_.id == infmask:
+            return q, False
+        if is_complement(m_.id, at):
+            return q, True
+        return None
+    for op, P, st, tmask in bf.ops:
+        extra = bf.extra_guards.get(id(st), [])
+        at = ctx.node(st)
+        parsed = []
+        for t, pol in extra:
+            if isinstance(t, ast.Constant) and bool(t.value) == pol:
+                continue
+            ma = mask_atom(t, at)
+            if ma is None:
+                out.unsure(fn, st, f'unrecognised condition `{astx.src(t)}` around the bound update')
+                return
+            parsed.append((ma, pol))
+        for pname, (inf_all, inf_any) in PAT.items():
+            run = True
+            for (q, comp), pol in parsed:
+                if comp:
+                    v = (not inf_any) if q == 'all' else (not inf_all)
+                else:
+                    v = inf_all if q == 'all' else inf_any
+                run = run and (v == pol)
+            if not run and pname != 'all entries infinite':
+                conds = ' and '.join(('' if pol else 'not ') + astx.src(t) for t, pol in extra)
+                out.bad(fn, st, f'the update runs only under `{conds}`, which is false when the bound array has {pname}: '
+                        'its finite entries reach the optimizer unscaled while the values are scaled', key='finite-guard')
+                return
+    if any(bf.extra_guards.get(id(st)) for _, _, st, _ in bf.ops):
+        out.ok(fn, bf.ops[0][2], 'the enclosing mask condition holds whenever some entry is finite (all-finite, mixed patterns)')
     after = set()
     for n in opnodes:
         after |= bfs(g, g.normal_succ(n), lambda a, b, lab: lab != 'exc')
@@ -1940,12 +2006,44 @@ def mult(repo, out):
         at = ctx.node(st)
         roles = {}
         okr = True
+        def expand(name_, power, at_, depth=0):
+            r_ = _mult_scaler(ctx, name_, at_)
+            if r_ is not None:
+                return [(r_, power)]
+            ds_ = ctx.defs(at_, name_)
+            if depth < 4 and len(ds_) == 1 and ds_[0][0] == 'aug' and isinstance(ds_[0][1].op, (ast.Mult, ast.Div)):
+                # `s op= f` (whether that is allowed on this object is C20.meta-readonly's question)
+                f_ = _factor(ds_[0][1].value)
+                preds = [p_ for p_, lab in ctx.g.pred[ds_[0][2]] if lab != 'exc']
+                if f_ is not None and preds:
+                    res_ = expand(name_, power, ds_[0][2], depth + 1)   # definitions reaching the op= itself
+                    sign = 1 if isinstance(ds_[0][1].op, ast.Mult) else -1
+                    for n2, p2 in f_.items():
+                        sub = expand(n2, power * p2 * sign, ds_[0][2], depth + 1)
+                        if sub is None or res_ is None:
+                            return None
+                        res_ = res_ + sub
+                    return res_
+            if depth < 4 and len(ds_) == 1 and ds_[0][0] == 'expr':
+                f_ = _factor(ds_[0][1])
+                if f_ is not None:
+                    res_ = []
+                    for n2, p2 in f_.items():
+                        sub = expand(n2, power * p2, ds_[0][2], depth + 1)
+                        if sub is None:
+                            return None
+                        res_ += sub
+                    return res_
+            return None
+        resolved = []
         for name_, power in fac.items():
-            r = _mult_scaler(ctx, name_, at)
-            if r is None:
+            ex = expand(name_, power, at)
+            if ex is None:
                 out.unsure(fn, st, f'cannot resolve scaler `{name_}`')
                 okr = False
                 break
+            resolved += ex
+        for r, power in (resolved if okr else []):
             T, idx, key, dflt, idiom, dst = r
             if key != 'total_scaler':
                 out.bad(fn, dst, f"multiplier factor is read from meta['{key}'], expected meta['total_scaler']",
@@ -1998,7 +2096,7 @@ def mult(repo, out):
         out.ok(fn, rets[-1], 'returns (desvar multipliers, constraint multipliers) in the order received')
 
 
-@rule('C20.mult-array', floor=1)
+@rule('C20.mult-array', floor=3)
 def mult_array(repo, out):
     """A scaler that may be an ndarray (design variables, constraints) is defaulted by an `is None` test, never by its truth value."""
     mf = MultFn(repo)
@@ -2029,6 +2127,31 @@ def mult_array(repo, out):
         else:
             out.ok(fn, st, f'{T} scaler defaulted through an `is None` test')
         done.add(T)
+    # `s = meta[...]; if <test on s>: s = 1.0` form, found through the operands of the multiplier updates
+    seen_dst = set()
+    for lp, P in mf.loops:
+        cands = {t.id for st0 in astx.walk_stmts(lp.body) if isinstance(st0, ast.Assign) and const_num(st0.value) is not None
+                 for t in st0.targets if isinstance(t, ast.Name)}
+        for st in astx.walk_stmts(lp.body):
+            if isinstance(st, (ast.If, ast.For)):
+                continue
+            for nm_ in sorted(cands):
+                w = ast.Name(id=nm_, ctx=ast.Load())
+                ns = ctx.g.nodes_of(st)
+                r = _mult_scaler(ctx, w.id, ns[0]) if ns else None
+                if r is None or r[4] not in ('truth-if', 'none') or id(r[5]) in seen_dst:
+                    continue
+                if any(it['line'] == r[5].lineno for it in out.items):
+                    continue
+                seen_dst.add(id(r[5]))
+                T = r[0]
+                if r[4] == 'truth-if' and T in ('design_var', 'constraint'):
+                    out.bad(fn, r[5], f"the {T} total_scaler is replaced by its default under a truth test of the value; for a "
+                            'vector variable with an array ref/scaler that raises ValueError (ambiguous truth value). '
+                            'Use `is None`.', key=f'truthiness-{T}-truth-if')
+                else:
+                    out.ok(fn, r[5], f'{T} scaler defaulted through an `is None` test')
+                done.add(T)
     if not done:
         # no defaulting idiom at all: the None case must be handled elsewhere (C20.mult resolves the operands)
         out.ok(fn, fn.node, 'no truth-value defaulting of scalers')
@@ -3038,6 +3161,198 @@ def bounds_autoscaler(repo, out):
         out.unsure(fn, fn.node, "assignment of self._var_meta['design_var'] not found")
 
 
+# =========================================================================== metadata is read-only
+_META_KEYS = ('total_scaler', 'total_adder')
+_CACHE_ATTRS = ('_scaled_lower', '_scaled_upper', '_scaled_equals')
+_VIEW_FUNCS = ('asarray', 'asanyarray', 'atleast_1d', 'atleast_2d', 'ravel', 'squeeze', 'reshape', 'broadcast_to')
+_VIEW_METHODS = ('ravel', 'reshape', 'view', 'squeeze', 'transpose', 'asarray')
+_INPLACE_METHODS = ('fill', 'sort', 'itemset', 'resize', 'put', 'partition', 'set_data', '_update_from_dict')
+_UFUNCS3 = ('add', 'subtract', 'multiply', 'divide', 'true_divide', 'negative', 'reciprocal', 'power', 'maximum',
+            'minimum', 'clip', 'abs', 'absolute', 'sqrt', 'square', 'exp', 'log')
+
+
+class _Alias:
+    """May-alias analysis: does an expression denote (a view of) a scaling-metadata array or a cached bound vector?"""
+
+    def __init__(self, ctx):
+        self.ctx = ctx
+        self.memo = {}
+
+    def of(self, e, at, depth=0):
+        """Description of the aliased metadata, or None when the value is fresh/unrelated."""
+        if e is None or depth > 10:
+            return None
+        ctx = self.ctx
+        if isinstance(e, ast.Subscript):
+            k = astx.const_str(e.slice)
+            if k in _META_KEYS:
+                return f"meta['{k}']"
+            p = astx.path(e.value) or ''
+            if p.split('.')[-1] in _CACHE_ATTRS:
+                return f'cached bound vector {p}[...]'
+            b = self.of(e.value, at, depth + 1)
+            if b is None:
+                return None
+            if b.startswith('cached bound vector'):
+                # OptimizerVector.__getitem__ returns a view of its data
+                return 'a view of the ' + b
+            if isinstance(e.slice, ast.Slice) or (isinstance(e.slice, ast.Constant) and e.slice.value is Ellipsis):
+                return b      # basic slicing of an ndarray is a view; element/mask/fancy indexing copies
+            return None
+        if isinstance(e, ast.Attribute):
+            if e.attr in ('T', 'flat', 'real', '_data'):
+                return self.of(e.value, at, depth + 1)
+            return None
+        if isinstance(e, ast.Call):
+            nm = astx.callee_attr(e)
+            if nm == 'get' and e.args and astx.const_str(e.args[0]) in _META_KEYS:
+                return f"meta['{astx.const_str(e.args[0])}']"
+            if nm == 'get_bounds_scaling':
+                return 'cached bound vector (get_bounds_scaling)'
+            if isinstance(e.func, ast.Attribute) and astx.path(e.func.value) in ('np', 'numpy'):
+                if nm in _VIEW_FUNCS and e.args and not (astx.kwarg(e, 'copy') is not None):
+                    return self.of(e.args[0], at, depth + 1)
+                return None
+            if isinstance(e.func, ast.Attribute) and nm in _VIEW_METHODS:
+                if nm == 'asarray' and (e.args or e.keywords):
+                    return None   # OptimizerVector.asarray(**filters) returns a copy
+                r = self.of(e.func.value, at, depth + 1)
+                if r and r.startswith('cached bound vector') and nm == 'asarray':
+                    return 'a view of the ' + r
+                return r
+            return None
+        if isinstance(e, ast.BoolOp):
+            for v in e.values:
+                r = self.of(v, at, depth + 1)
+                if r:
+                    return r
+            return None
+        if isinstance(e, ast.IfExp):
+            return self.of(e.body, at, depth + 1) or self.of(e.orelse, at, depth + 1)
+        if isinstance(e, ast.NamedExpr):
+            return self.of(e.value, at, depth + 1)
+        if isinstance(e, ast.Name):
+            key = (e.id, at.id)
+            if key in self.memo:
+                return self.memo[key]
+            self.memo[key] = None     # cycle guard
+            res = None
+            for kind, payload, d in ctx.defs(at, e.id):
+                if kind == 'expr':
+                    res = self.of(payload, d, depth + 1)
+                elif kind == 'unpack':
+                    r = self.of(payload[0], d, depth + 1)
+                    res = r
+                elif kind == 'loop':
+                    lp, ix = payload
+                    it = lp.iter
+                    if isinstance(it, ast.Call) and astx.callee_attr(it) in ('items', 'values') and \
+                            isinstance(it.func, ast.Attribute):
+                        r = self.of(it.func.value, d, depth + 1)
+                        if r and r.startswith('cached bound vector') and (astx.callee_attr(it) == 'values' or ix == (1,)):
+                            res = 'a view of the ' + r
+                elif kind == 'aug':
+                    # x op= ... keeps the object when x was an array alias before
+                    pre = [self.of(ast.Name(id=e.id, ctx=ast.Load()), p_, depth + 1)
+                           for p_, lab in ctx.g.pred[d] if lab != 'exc']
+                    res = next((r for r in pre if r), None)
+                if res:
+                    break
+            self.memo[key] = res
+            return res
+        return None
+
+
+def _readonly_scan(repo, out, rels):
+    """Report every in-place update whose target may alias scaling metadata / cached bounds."""
+    for rel in rels:
+        src = repo.source(rel)
+        if not any(tok in src for tok in _META_KEYS + _CACHE_ATTRS + ('get_bounds_scaling',)):
+            continue
+        m = repo.module(rel)
+        for f in m.funcs.values():
+            reads = [w for w in astx.walk(f.node) if
+                     (isinstance(w, ast.Constant) and w.value in _META_KEYS) or
+                     (isinstance(w, ast.Attribute) and w.attr in _CACHE_ATTRS + ('get_bounds_scaling',))]
+            if not reads:
+                continue
+            sinks = [st for st in astx.walk_stmts(f.node.body) if isinstance(st, ast.AugAssign) or
+                     (isinstance(st, ast.Assign) and any(isinstance(t, ast.Subscript) for t in astx.assigned_targets(st)))
+                     or any(isinstance(w, ast.Call) for w in astx.walk(st)
+                            if not isinstance(st, (ast.If, ast.For, ast.While, ast.With, ast.Try,
+                                                   ast.FunctionDef, ast.ClassDef)))]
+            ctx = Ctx(f)
+            al = _Alias(ctx)
+            nbad = 0
+            for st in sinks:
+                ns = ctx.g.nodes_of(st)
+                if not ns:
+                    continue
+                at = ns[0]
+                if isinstance(st, ast.AugAssign):
+                    t = st.target
+                    if isinstance(t, ast.Subscript) and astx.const_str(t.slice) in _META_KEYS:
+                        out.bad(f, st, f"augmented assignment to meta['{astx.const_str(t.slice)}'] changes the declared "
+                                'scaling for every later value, bound, jacobian and multiplier query', key='meta-augassign')
+                        nbad += 1
+                        continue
+                    r = al.of(t if isinstance(t, ast.Name) else t.value, at)
+                    if r and not (isinstance(t, ast.Name) and r.startswith('cached bound vector')):
+                        out.bad(f, st, f'`{astx.src(t)}` may be the very array stored in {r} (no copy is taken on the way): '
+                                'the augmented assignment modifies it in place, so every later scaling of values, bounds '
+                                'and derivatives uses corrupted metadata. Rebind instead (`x = x / y`).',
+                                key='inplace-' + (astx.path(t) or astx.src(t)))
+                        nbad += 1
+                    continue
+                if isinstance(st, ast.Assign):
+                    hit = False
+                    for t in astx.assigned_targets(st):
+                        if isinstance(t, ast.Subscript) and astx.const_str(t.slice) not in _META_KEYS:
+                            p = astx.path(t.value) or ''
+                            if p.split('.')[-1] in _CACHE_ATTRS:
+                                continue   # (re)filling the cache dict itself is the producer's job
+                            r = al.of(t.value, at)
+                            if r:
+                                out.bad(f, st, f'`{astx.src(t)}` stores into {r}: the shared scaling metadata is overwritten '
+                                        'in place', key='store-' + (astx.path(t.value) or astx.src(t.value)))
+                                nbad += 1
+                                hit = True
+                    if hit:
+                        continue
+                for c in (astx.calls(st) if not isinstance(st, (ast.If, ast.For, ast.While, ast.With, ast.Try)) else []):
+                    o = astx.kwarg(c, 'out')
+                    if o is None and astx.callee_attr(c) in _UFUNCS3 and len(c.args) == 3 and \
+                            astx.path(astx.receiver(c)) in ('np', 'numpy'):
+                        o = c.args[2]
+                    if o is not None and al.of(o, at):
+                        out.bad(f, st, f'`out={astx.src(o)}` writes the result into {al.of(o, at)}', key='out-' + astx.src(o))
+                        nbad += 1
+                    elif isinstance(c.func, ast.Attribute) and c.func.attr in _INPLACE_METHODS and \
+                            not astx.path(c.func.value) in ('np', 'numpy') and al.of(c.func.value, at):
+                        out.bad(f, st, f'`{astx.src(c.func)}(...)` modifies {al.of(c.func.value, at)} in place',
+                                key='method-' + astx.src(c.func))
+                        nbad += 1
+                    elif astx.callee_attr(c) in ('copyto', 'put', 'place', 'putmask') and c.args and \
+                            astx.path(astx.receiver(c)) in ('np', 'numpy') and al.of(c.args[0], at):
+                        out.bad(f, st, f'`{astx.src(c.func)}` writes into {al.of(c.args[0], at)}', key='copyto-' + astx.src(c.args[0]))
+                        nbad += 1
+            if not nbad:
+                out.ok(f, f.node, 'reads scaling metadata / cached bounds; no in-place update can reach them')
+
+
+@rule('C20.meta-readonly', floor=11)
+def meta_readonly(repo, out):
+    """No in-place update (op=, slice store, out=, mutating method) targets a value that may alias meta['total_scaler'|'total_adder'] or the cached scaled-bound vectors (Autoscaler, BoundsAutoscaler, OptimizerVector, Driver)."""
+    _readonly_scan(repo, out, [AUTO, BAUTO, OVEC, DRIVER])
+
+
+@rule('C20.meta-readonly-all', floor=1, tier='thorough')
+def meta_readonly_all(repo, out):
+    """Same over every other module in openmdao/drivers/ and core/total_jac.py."""
+    rest = [r for r in repo.shipped() if (r.startswith('openmdao/drivers/') or r == TOTJAC) and r not in (AUTO, BAUTO)]
+    _readonly_scan(repo, out, rest)
+
+
 # =========================================================================== self-test
 _UNSC = ("            if scaler is not None:\n                vec[name] /= scaler\n"
          "            if adder is not None:\n                vec[name] -= adder\n")
@@ -3062,6 +3377,9 @@ _FLAT_OUT = ("            elif out_name in self._var_meta['constraint']:\n"
              "                out_scaler = self._var_meta['constraint'][out_name]['total_scaler']\n"
              "            else:\n                # Unknown output, skip scaling this entry\n                continue\n")
 _DE = 'openmdao/drivers/differential_evolution_driver.py'
+_MDV = ("                scaler = self._var_meta['design_var'][name]['total_scaler']\n"
+        "                if scaler is None:\n                    scaler = 1.0\n")
+_MCON = _MDV.replace("'design_var'", "'constraint'")
 
 selftest(
     'C20',
@@ -3181,19 +3499,49 @@ selftest(
     Mutant('mult-rebind', AUTO, 'mult *= scaler / obj_scaler', 'mult = mult * scaler / obj_scaler', 'C20.mult', nth=1),
     Mutant('mult-no-objective', AUTO, 'mult *= scaler / obj_scaler', 'mult *= scaler', 'C20.mult'),
     Mutant('mult-product', AUTO, 'mult *= scaler / obj_scaler', 'mult *= scaler * obj_scaler', 'C20.mult', nth=1),
-    Mutant('mult-wrong-table', AUTO, "scaler = self._var_meta['design_var'][name]['total_scaler'] or 1.0",
-           "scaler = self._var_meta['constraint'][name]['total_scaler'] or 1.0", 'C20.mult'),
+    Mutant('mult-wrong-table', AUTO, _MDV, _MDV.replace("'design_var'", "'constraint'"), 'C20.mult'),
     Mutant('mult-return-swapped', AUTO, "        return desvar_multipliers, con_multipliers\n",
            "        return con_multipliers, desvar_multipliers\n", 'C20.mult', nth=1),
-    Mutant('mult-default-zero', AUTO, "scaler = self._var_meta['constraint'][name]['total_scaler'] or 1.0",
-           "scaler = self._var_meta['constraint'][name]['total_scaler'] or 0.0", 'C20.mult'),
+    Mutant('mult-default-zero', AUTO, _MCON, _MCON.replace('scaler = 1.0', 'scaler = 0.0'), 'C20.mult'),
     Mutant('mult-user-scaler', AUTO, "obj_scaler = obj_meta[obj_name]['total_scaler'] or 1.0",
            "obj_scaler = obj_meta[obj_name]['scaler'] or 1.0", 'C20.mult'),
-    Mutant('mult-con-loop-dropped', AUTO, "                scaler = self._var_meta['constraint'][name]['total_scaler'] or 1.0\n"
-           "                mult *= scaler / obj_scaler\n", "                pass\n", 'C20.mult'),
-    Mutant('mult-array-ifexp-truth', AUTO, "scaler = self._var_meta['constraint'][name]['total_scaler'] or 1.0",
-           "scaler = self._var_meta['constraint'][name]['total_scaler'] if self._var_meta['constraint'][name]['total_scaler'] else 1.0",
-           'C20.mult-array'),
+    Mutant('mult-con-loop-dropped', AUTO, _MCON + "                mult *= scaler / obj_scaler\n", "                pass\n", 'C20.mult'),
+    Mutant('mult-array-or-truth-prefix', AUTO, _MDV,
+           "                scaler = self._var_meta['design_var'][name]['total_scaler'] or 1.0\n", 'C20.mult-array'),
+    Mutant('mult-array-ifexp-truth', AUTO, _MCON,
+           "                scaler = self._var_meta['constraint'][name]['total_scaler'] if "
+           "self._var_meta['constraint'][name]['total_scaler'] else 1.0\n", 'C20.mult-array'),
+    Mutant('mult-array-if-truth', AUTO, _MCON, _MCON.replace('if scaler is None:', 'if not scaler:'), 'C20.mult-array'),
+    # ---- metadata is read-only
+    Mutant('seed3-scaler-divided-in-place', AUTO, "                mult *= scaler / obj_scaler\n",
+           "                scaler /= obj_scaler\n                mult *= scaler\n", 'C20.meta-readonly'),
+    Mutant('seed3-both-loops', AUTO, "                mult *= scaler / obj_scaler\n",
+           "                scaler /= obj_scaler\n                mult *= scaler\n", 'C20.meta-readonly', nth=1,
+           also=[(AUTO, "                mult *= scaler / obj_scaler\n", "                scaler /= obj_scaler\n                mult *= scaler\n")]),
+    Mutant('meta-slice-store', AUTO, "                mult *= scaler / obj_scaler\n",
+           "                scaler = np.asarray(scaler)\n                scaler[...] = scaler / obj_scaler\n                mult *= scaler\n",
+           'C20.meta-readonly'),
+    Mutant('meta-out-argument', AUTO, "                jac_block *= 1.0 / in_scaler\n",
+           "                np.reciprocal(in_scaler, out=in_scaler)\n                jac_block *= in_scaler\n", 'C20.meta-readonly'),
+    Mutant('meta-augassign-key', AUTO, "            scaler = self._var_meta[vec.voi_type][name]['total_scaler']\n",
+           "            self._var_meta[vec.voi_type][name]['total_scaler'] *= 1.0\n"
+           "            scaler = self._var_meta[vec.voi_type][name]['total_scaler']\n", 'C20.meta-readonly'),
+    Mutant('meta-unscale-negates-adder', AUTO, "            if adder is not None:\n                vec[name] -= adder\n",
+           "            if adder is not None:\n                adder *= -1\n                vec[name] += adder\n", 'C20.meta-readonly'),
+    Mutant('cached-bound-relaxed-in-place', DRIVER, "                constraint_upper = upper_con[constraint]\n",
+           "                constraint_upper = upper_con[constraint]\n                constraint_upper += feas_atol\n",
+           'C20.meta-readonly'),
+    Mutant('cached-bound-store', DRIVER, "            des_var_upper = upper_dv[des_var]\n",
+           "            des_var_upper = upper_dv[des_var]\n            upper_dv[des_var] = des_var_upper + feas_atol\n",
+           'C20.meta-readonly'),
+    Mutant('cached-bound-asarray-fill', AUTO, "        return (self._scaled_lower[voi_type],\n",
+           "        self._scaled_lower[voi_type].asarray().fill(0.0)\n        return (self._scaled_lower[voi_type],\n",
+           'C20.meta-readonly'),
+    # ---- seed 2: guard of the bound update
+    Mutant('seed2-guard-any', AUTO, "        if not inf_mask.all():\n", "        if not inf_mask.any():\n", 'C20.bounds'),
+    Mutant('bound-guard-all-finite-only', AUTO, "        if not inf_mask.all():\n            finite = ~inf_mask\n",
+           "        finite = ~inf_mask\n        if finite.all():\n", 'C20.bounds'),
+    Mutant('bound-guard-inverted', AUTO, "        if not inf_mask.all():\n", "        if inf_mask.all():\n", 'C20.bounds'),
     # ---- proto
     Mutant('das-unpack-swapped', SYSTEM, "resp['total_adder'], resp['total_scaler'] = determine_adder_scaler(",
            "resp['total_scaler'], resp['total_adder'] = determine_adder_scaler(", 'C20.proto'),
@@ -3366,11 +3714,16 @@ selftest(
          "        scaler = 1.0 / (ref - ref0)\n        adder = -ref0\n"),
     Twin('twin-slots-keywords', AUTO, "meta.get('upper', INF_BOUND), adder, scaler, size, is_lower=False",
          "meta.get('upper', INF_BOUND), scaler=scaler, adder=adder, size=size, is_lower=False"),
-    Twin('repair-is-none-idiom', AUTO, "scaler = self._var_meta['design_var'][name]['total_scaler'] or 1.0",
-         "scaler = self._var_meta['design_var'][name]['total_scaler']\n                if scaler is None:\n                    scaler = 1.0",
-         also=[(AUTO, "scaler = self._var_meta['constraint'][name]['total_scaler'] or 1.0",
-                "scaler = 1.0 if self._var_meta['constraint'][name]['total_scaler'] is None else "
-                "self._var_meta['constraint'][name]['total_scaler']")]),
+    Twin('twin-none-default-ifexp', AUTO, _MCON,
+         "                scaler = 1.0 if self._var_meta['constraint'][name]['total_scaler'] is None else "
+         "self._var_meta['constraint'][name]['total_scaler']\n"),
+    Twin('twin-scaler-rebound-not-in-place', AUTO, "                mult *= scaler / obj_scaler\n",
+         "                scaler = scaler / obj_scaler\n                mult *= scaler\n"),
+    Twin('twin-bound-guard-np-all', AUTO, "        if not inf_mask.all():\n", "        if not np.all(inf_mask):\n"),
+    Twin('twin-bound-guard-any-finite', AUTO, "        if not inf_mask.all():\n", "        if (~inf_mask).any():\n"),
+    Twin('twin-bound-guard-dropped', AUTO, "        if not inf_mask.all():\n", "        if True:\n"),
+    Twin('twin-cached-bound-copy-then-modify', DRIVER, "                constraint_upper = upper_con[constraint]\n",
+         "                constraint_upper = upper_con[constraint].copy()\n                constraint_upper += 0.0\n"),
     Twin('repair-space-de-driver', _DE, "for name, val in self.get_constraint_values().items():",
          "for name, val in self.get_constraint_values(driver_scaling=False).items():"),
 )
